@@ -126,7 +126,8 @@ def single_assignments(fn: FuncInfo) -> dict[str, ast.AST]:
     for n in walk_local(fn.node):
         if isinstance(n, ast.Assign):
             for t in n.targets:
-                for nm in ([t] if isinstance(t, ast.Name) else [x for x in ast.walk(t) if isinstance(x, ast.Name)]):
+                for nm in ([t] if isinstance(t, ast.Name) else [x for x in ast.walk(t) if isinstance(x, ast.Name)
+                                                                 and isinstance(x.ctx, ast.Store)]):
                     counts[nm.id] = counts.get(nm.id, 0) + 1
                     if isinstance(t, ast.Name):
                         vals[nm.id] = n.value
